@@ -4,19 +4,18 @@ From Coq Require Import ZArith QArith Bool.
 Record Ops (A : Type) : Type := mkOps {
   zero : A; one : A;
   add : A -> A -> A; sub : A -> A -> A; mul : A -> A -> A; div : A -> A -> A;
-  leb : A -> A -> bool; eqb : A -> A -> bool
+  leb : A -> A -> bool; ltb : A -> A -> bool; eqb : A -> A -> bool
 }.
 Arguments zero {A} _. Arguments one {A} _.
 Arguments add {A} _ _ _. Arguments sub {A} _ _ _. Arguments mul {A} _ _ _.
-Arguments div {A} _ _ _. Arguments leb {A} _ _ _. Arguments eqb {A} _ _ _.
+Arguments div {A} _ _ _. Arguments leb {A} _ _ _. Arguments ltb {A} _ _ _. Arguments eqb {A} _ _ _.
 
 Definition two {A} (o : Ops A) : A := add o (one o) (one o).
 Definition omin {A} (o : Ops A) (a b : A) : A := if leb o a b then a else b.
 Definition omax {A} (o : Ops A) (a b : A) : A := if leb o a b then b else a.
-Definition ltb {A} (o : Ops A) (a b : A) : bool := negb (leb o b a).
 
 Definition QOps : Ops Q :=
-  mkOps Q 0%Q 1%Q Qplus Qminus Qmult Qdiv Qle_bool Qeq_bool.
+  mkOps Q 0%Q 1%Q Qplus Qminus Qmult Qdiv Qle_bool (fun a b => negb (Qle_bool b a)) Qeq_bool.
 
 Definition ZOps : Ops Z :=
-  mkOps Z 0%Z 1%Z Z.add Z.sub Z.mul Z.div Z.leb Z.eqb.
+  mkOps Z 0%Z 1%Z Z.add Z.sub Z.mul Z.div Z.leb Z.ltb Z.eqb.
